@@ -81,6 +81,7 @@ func (my *taskCallback) runTaskOnce(ctx context.Context) {
 		default:
 			verifYield(1)
 			if atomic.CompareAndSwapInt32(&decided, 0, 1) {
+				verifYield(4)
 				my.result, my.err = result, err
 			}
 		}
